@@ -257,6 +257,11 @@ class Fn:
                     return k("0", env)
                 if ck == "ToVoid":
                     return self.ex(sub, env, lambda t, e: k("0", e))
+                if ck == "IntegralToPointer":
+                    # (void *)-1 is the all-ones address
+                    return self.ex(sub, env, lambda t, e: k(self.wrap(t, ("I", 64, False)), e))
+                if ck == "PointerToIntegral":
+                    return self.ex(sub, env, lambda t, e: k(self.wrap(t, ty) if ty[0] == "I" and ty[1:] != (64, False) else t, e))
                 return self.ex(sub, env, k)
             if ck == "IntegralCast":
                 st = ctype(sub.get("type", {}))
